@@ -15,6 +15,7 @@ func init() { register("C16", checkC16) }
 
 func checkC16(c *Ctx) {
 	r := c.R
+	r.Rule("R02.3", "(shared with C02) every record carries its timestamp: the blank-line shortcut (a bare newline, no fields at all) is taken for lvl == AlwaysLevel and an empty message only")
 	r.Rule("R15.3", "(shared with C15) a log/slog record keeps its own instant: Handle hands the record to WriteThru (the package's loggers implement LogSlogAware) with the record's time")
 	r.Rule("R11.3", "(shared with C11) the zone and layout in force are the emitting logger's own: setentry copies them from that logger on every path, never from its owner")
 	r.Rule("R10.4", "(shared with C10) a With-form's child is its own logger: anonymous, or named by a term over every argument (WithUTCMode(true) and WithUTCMode(false) never return the same child)")
@@ -39,6 +40,7 @@ func checkC16(c *Ctx) {
 		}
 		c16Timestamp(c, p, m)
 		c16ModeCallers(c, p)
+		c02Newline(c, p, m)
 		fixedMembersAlways(c, p, m, "R16.3", feasibleModes)
 		instantFlow(c, p, m)
 		c09Pooled(c, p, m, "R16.4", feasibleModes)
@@ -372,6 +374,9 @@ func c16Timestamp(c *Ctx, p *Prog, m *Model) {
 							return "more", true
 						}
 					}
+					if isArgCountTest(cond, su) {
+						return "more", true
+					}
 					return "", false
 				}, nil)
 				if t.Kind != "return" {
@@ -401,6 +406,12 @@ func c16Timestamp(c *Ctx, p *Prog, m *Model) {
 				}
 			}
 			ok, okBranch = good, good
+		}
+		if !(ok && okBranch) {
+			// direct form (`if n := len(b); n > 0 && !b[n-1] { mode = 1 }`): the three call forms evaluated
+			if outs, decided := variadicBoolCases(su); decided && outs[0] == "modeUTC=2" && outs[1] == "modeUTC=2" && outs[2] == "modeUTC=1" {
+				ok, okBranch = true, true
+			}
 		}
 		r.Check(ok && okBranch, "R16.1", "Entry.SetUTCMode", p.FuncPos(su), "stores 2 (UTC) for no argument/true and 1 (local) for false", "SetUTCMode does not store 2 for no argument/true and 1 for false")
 	} else {
@@ -441,6 +452,43 @@ func c16Timestamp(c *Ctx, p *Prog, m *Model) {
 				}
 			}
 			walk(strip(fs.Val), 0)
+			// ... and the layout used when none is given keeps the instant to the nanosecond, with its zone
+			{
+				var coarse []string
+				seen2 := map[ssa.Value]bool{}
+				var walk2 func(v ssa.Value, d int)
+				walk2 = func(v ssa.Value, d int) {
+					if v == nil || seen2[v] || d > 8 {
+						return
+					}
+					seen2[v] = true
+					switch x := v.(type) {
+					case *ssa.Phi:
+						for _, e := range x.Edges {
+							walk2(e, d+1)
+						}
+					case *ssa.Const:
+						if x.Value != nil && x.Value.Kind() == constant.String {
+							lay := constant.StringVal(x.Value)
+							nano, zone := false, false
+							for _, t := range layoutTokens(lay) {
+								if t == ".000000000" || t == ".999999999" || t == ",000000000" || t == ",999999999" {
+									nano = true
+								}
+								if strings.HasPrefix(t, "Z07") || strings.HasPrefix(t, "-07") || t == "MST" {
+									zone = true
+								}
+							}
+							if !nano || !zone || len(layoutProblems(lay)) > 0 {
+								coarse = append(coarse, fmt.Sprintf("%q", lay))
+							}
+						}
+					}
+				}
+				walk2(strip(fs.Val), 0)
+				r.Check(len(coarse) == 0, "R16.4", "Entry.SetTimeFormat:default", p.Pos(instrPos(fs.Instr)), "the layout used when none is given prints nanoseconds and the zone",
+					"the layout SetTimeFormat falls back to when no layout is given ("+strings.Join(coarse, ", ")+") does not print the instant to the nanosecond with its zone: the timestamp parses back to another instant")
+			}
 			r.Check(len(through) == 0, "R16.4", "Entry.SetTimeFormat:as-given", p.Pos(instrPos(fs.Instr)), "the layout stored is an element of the argument list itself",
 				"the layout stored went through "+strings.Join(dedupStr(through), ", ")+": a layout with leading or trailing blanks (or other text the function changes) is not the one the logger prints with, and the text no longer parses with the layout that was set")
 		}
